@@ -49,6 +49,8 @@ pub fn run(cfg: &Cfg, rep: &mut Report) -> Result<(), String> {
         "c09u16" => u16mon::run(cfg, rep, u16mon::Mode::Iter),
         #[cfg(feature = "utf16")]
         "c05u16" => u16mon::run(cfg, rep, u16mon::Mode::Steps),
+        #[cfg(feature = "utf16")]
+        "c11u16" => c11::run_u16(cfg, rep),
         "c15" => c15::run(cfg, rep),
         #[cfg(feature = "pattern")]
         "c20" => c20::run(cfg, rep),
